@@ -43,6 +43,24 @@ class Checked(TraitType):
         self.error(object, name, value)
 
 
+class Item2(HasTraits):
+    uid = Int()
+
+    def __repr__(self):
+        return "Item2#%d" % self.uid
+
+
+def make_fholder():
+    """A class built per run (resolving a forward reference patches the trait
+    definitions of the class): a Dict whose value trait names its class by a
+    string, resolved at the first store, and a bounded List whose implicit
+    default ([]) is shorter than minlen."""
+    class FHolder(HasTraits):
+        dn = Dict(Instance(Item), Instance("Item2"))
+        lb = List(Int, minlen=2, maxlen=4)
+    return FHolder
+
+
 class UHolder(HasTraits):
     """Containers inside a compound trait: the class has no ``<name>_items``
     companion trait for them (the first mutation adds one to the instance), and
